@@ -526,6 +526,9 @@ Definition same_obj_t (old : node) (rv : rvalue) : bool :=
   | _ => same_obj old rv
   end.
 Definition junk_pv : pv := Typing.PObj [9%N; 9%N; 9%N] 0.
+(* `value == MISSING_VALUE` for a resolved value *)
+Definition x_missing (x : rtv) : bool :=
+  match r_pv x with Some v => Typing.is_missing v | None => is_missing_rv (r_rv x) end.
 
 (* List._set_item_without_permission_check of a list bound to List(e, min, max) *)
 Definition tlprim (sc : scope) (st : state) (cp : pos) (k : key) (x : rtv) (e : spec) (mn : Z) (mx : option Z) : state * pres :=
@@ -537,7 +540,7 @@ Definition tlprim (sc : scope) (st : state) (cp : pos) (k : key) (x : rtv) (e : 
           let n := zlen its in
           let rv := r_rv x in
           let ins := r_ins x in
-          if (z >=? n) && negb ins && is_missing_rv rv then (st, PNone) else
+          if (z >=? n) && negb ins && x_missing x then (st, PNone) else
           let idx0 := if z >=? n then n else z in
           let idx := if idx0 <? 0 then (if idx0 >=? - n then idx0 + n else if ins then 0 else idx0) else idx0 in
           if (idx <? n) && negb ins then
@@ -545,7 +548,7 @@ Definition tlprim (sc : scope) (st : state) (cp : pos) (k : key) (x : rtv) (e : 
             match nth_error its (Z.to_nat idx) with
             | Some (_, old) =>
                 if same_obj_t old rv then (st, PNone) else
-                if is_missing_rv rv && negb (removable mn its 1) then (st, PErr EValue) else
+                if x_missing x && negb (removable mn its 1) then (st, PErr EValue) else
                 match r_pv x with
                 | None => (st, PErr ENA)
                 | Some v =>
@@ -582,11 +585,12 @@ Definition tdprim (sc : scope) (st : state) (cp : pos) (k : key) (x : rtv) (fs :
   | Some (Node cid ck _ cpath cfl its) =>
       let rv := to_rv x in
       let old := match assoc k its with Some o => o | None => Leaf LMissing end in
-      if (if has_key k its then same_obj_t old rv else is_missing_rv rv) then (st, PNone) else
+      let miss := negb (r_ins x) && x_missing x in
+      if (if has_key k its then same_obj_t old rv else miss) then (st, PNone) else
       match dict_field fs k with
       | None => (st, PErr EKey)
       | Some f =>
-          if is_missing_rv rv && negb (is_const_key fs k) then
+          if miss && negb (is_const_key fs k) then
             (* MISSING_VALUE deletes a key of the StrKey() field *)
             (add_detached (update_at st cp (set_items (remove_assoc k its))) old, PUpd)
           else
@@ -594,7 +598,7 @@ Definition tdprim (sc : scope) (st : state) (cp : pos) (k : key) (x : rtv) (fs :
             | None => (st, PErr ENA)
             | Some v0 =>
                 (* MISSING_VALUE on a declared key: back to the field's default *)
-                let v := if is_missing_rv rv then Typing.dflt (Typing.mods_of f) else v0 in
+                let v := if miss then Typing.dflt (Typing.mods_of f) else v0 in
                 match tformalize sc st (fst cp) ck cid cfl (cpath ++ [k]) false f v with
                 | inr er => (st, PErr er)
                 | inl (nw, st1) => (add_detached (update_at st1 cp (set_items (set_assoc k nw its))) old, PUpd)
